@@ -23,6 +23,12 @@ theorem C16_fact_inplace_order :
     callsRollbackInPlace = ["transactionalImport", "ReconfigureProcessor"] ∧
     callsTransactionalImport = ["NewTransaction", "importPipeline", "Commit"] := by decide
 
+/-- "re-check precedes gate": `ApplyPlanLive` reads the running status twice (the second read
+closes the window in which an external `Start` can land) and *both* reads come before the
+authorisation gate `if running && !allowRestartOnRunning` — the order `Model/Live.lean`
+(`flipState`, then the gate) assumes and `C16_running_needs_authorisation` is proved for. -/
+theorem C16_fact_recheck_precedes_gate : isRunningReads = 2 ∧ isRunningReadsBeforeGate = 2 := by decide
+
 /-- `isRunningStatus` = {Running, Recovering, Degraded} = the model's `{1, 5, 4}`. -/
 theorem C16_fact_running_statuses :
     runningStatuses = ["pipeline.StatusRunning", "pipeline.StatusRecovering", "pipeline.StatusDegraded"] ∧
